@@ -276,19 +276,22 @@ HasAllIds(t) == Range(cls.ids) \subseteq Range(chunks[t])          \* pin.py:284
 Start == /\ pc = "scan" /\ nextT <= Len(chunks) /\ Cardinality(running) < x.w
          /\ running' = running \cup {nextT} /\ nextT' = nextT + 1
          /\ UNCHANGED <<c, x, pc, cls, chunks, prog, mask, ret, dfl, out>>
-\* pin.py:283-298: one row chunk of one running task
-Scan(t) == /\ pc = "scan" /\ t \in running /\ prog[t] < NRC
+\* pin.py:283-298: one row chunk of a running task.  Only the task whose column chunk holds all identifier
+\* columns touches shared state (the list df_spectra_list) while it runs, so its row chunks are separate
+\* steps; the row chunks of the other tasks are local (they commute with everything) and are folded into Finish.
+Scan(t) == /\ pc = "scan" /\ t \in running /\ HasAllIds(t) /\ prog[t] < NRC
            /\ LET k == prog[t] + 1
-                  scanned == IF HasAllIds(t) THEN Range(chunks[t]) \ Range(cls.ids)      \* :294 drop(spectra)
-                             ELSE Range(chunks[t])
-              IN /\ dfl' = IF HasAllIds(t) THEN Append(dfl, <<t, k>>) ELSE dfl             \* :285
+                  scanned == Range(chunks[t]) \ Range(cls.ids)                            \* :294 drop(spectra)
+              IN /\ dfl' = Append(dfl, <<t, k>>)                                           \* :285
                  /\ mask' = [mask EXCEPT ![t] = @ \cup {col \in scanned :                  \* :295-298
                                                         \E r \in RowsOfChunk(k) : <<col, r>> \in x.nan}]
                  /\ prog' = [prog EXCEPT ![t] = k]
            /\ UNCHANGED <<c, x, pc, cls, chunks, nextT, running, ret, out>>
-\* pin.py:300-302: the task returns the columns whose mask is set
-Finish(t) == /\ pc = "scan" /\ t \in running /\ prog[t] = NRC
-             /\ ret' = [ret EXCEPT ![t] = mask[t]]
+\* pin.py:300-302: the task returns the columns whose mask is set (a chunk without all identifiers scans
+\* every one of its columns, identifier columns included: :284 is false, nothing is dropped from the frame)
+Finish(t) == /\ pc = "scan" /\ t \in running /\ (HasAllIds(t) => prog[t] = NRC)
+             /\ ret' = [ret EXCEPT ![t] = IF HasAllIds(t) THEN mask[t]
+                                          ELSE {col \in Range(chunks[t]) : \E r \in 1..x.nrows : <<col, r>> \in x.nan}]
              /\ running' = running \ {t}
              /\ UNCHANGED <<c, x, pc, cls, chunks, nextT, prog, mask, dfl, out>>
 Join == /\ pc = "scan" /\ nextT > Len(chunks) /\ running = {}
